@@ -47,7 +47,7 @@ func C01(c *core.Ctx) {
 				continue
 			}
 			n++
-			budget := 64
+			budget := 256
 			if cfg.MinSizedInts {
 				budget = 4096
 				// every world of a bounded integer under --min-sized-ints is a region of the bound relative to the
